@@ -42,6 +42,7 @@ type c20Plan struct {
 	Recorded bool  `json:"recorded"`           // use the recorded client/test_data/0_1_4_log.csv instead of a generated ceremony
 	CLI      bool  `json:"cli"`                // build the reinit file with the compiled dc4bc_dkg_reinitializer from a CSV dump and check the compiled CLI's hash
 	Prior    bool  `json:"prior"`              // the original machines completed another round before the one that is re-initialised
+	Restart  bool  `json:"restart,omitempty"`  // the re-initialised airgapped machines are restarted (reopen + documented log replay) before they are asked to sign
 	DupInit  bool  `json:"dup_init,omitempty"` // the board re-delivers the round's opening proposal once more after the ceremony has begun (live nodes refuse the copy)
 }
 
@@ -50,7 +51,7 @@ func c20Gen(rt *rapid.T) c20Plan {
 	return c20Plan{N: nt[0], T: nt[1], Tape: rapid.SliceOfN(rapid.IntRange(0, 1000), 0, 60).Draw(rt, "tape"),
 		Batches: rapid.IntRange(0, 2).Draw(rt, "batches"), Junk: rapid.IntRange(0, 3).Draw(rt, "junk"),
 		Adapt014: rapid.Bool().Draw(rt, "adapt"), Proposer: rapid.IntRange(0, nt[0]-1).Draw(rt, "proposer"), Prior: rapid.IntRange(0, 2).Draw(rt, "prior") == 0, CLI: rapid.IntRange(0, 3).Draw(rt, "cli") == 0,
-		DupInit: rapid.IntRange(0, 3).Draw(rt, "dupInit") == 0}
+		DupInit: rapid.IntRange(0, 3).Draw(rt, "dupInit") == 0, Restart: rapid.Bool().Draw(rt, "restartAfter")}
 }
 
 type c20Orig struct {
@@ -412,6 +413,18 @@ func c20Reinit(p c20Plan, o c20Orig, cfg world.Config, log []storage.Message) (o
 	if o.GroupKey != nil {
 		groupKey = o.GroupKey
 	}
+	if p.Restart {
+		for i, m := range w.Machines {
+			if err := m.Reopen(); err != nil {
+				obs.Viol = violf("restart-after-reinit-fails", "re-initialised machine %d cannot be reopened: %v", i, err)
+				return
+			}
+			if err := m.M.ReplayOperationsLog(round); err != nil {
+				obs.Viol = violf("restart-after-reinit-fails", "re-initialised machine %d, restarted: the documented replay of the round's operation log fails: %v", i, err)
+				return
+			}
+		}
+	}
 	// signatures produced afterwards verify under the original group key; messages are verified with the NEW comm keys
 	payload := []byte("signed after re-initialisation")
 	if err := w.ProposeBatch((p.Proposer+1)%w.N, round, map[string][]byte{"after reinit": payload}); err != nil {
@@ -500,6 +513,9 @@ func c20Run(t *testing.T, st *vstat.Stats, p c20Plan) *viol {
 	st.Class(fmt.Sprintf("adapt014=%v", p.Adapt014 || p.Recorded))
 	if p.DupInit && !p.Recorded {
 		st.Class("log-with-redelivered-opening-proposal")
+	}
+	if p.Restart {
+		st.Class("machines-restarted-after-reinit")
 	}
 	if p.CLI && !p.Recorded && os.Getenv("VERIF_BUILD") != "" {
 		st.Class("via-compiled-CLIs")
